@@ -17,7 +17,11 @@ from .. import abstraction as A
 ALPHA = ['a', '.', '0', ',', ']', '}']
 NASTY = ['"', '\\', '/', '\n', '\t', '\x00', '\x1f', '\x7f', 'é', ' ', '\U0001F600', ' ', ':', '[', '{', '.0', '.0]', '1.0,', 'e']
 NUMS = [0, 1, -1, 2.5, -0.5, 100, 1e15, 1e16, 1.5e-7, 123456789012345678, 1e21, 5e-324, 1.7976931348623157e308, 0.1, 1 / 3, 2 ** 53,
-        1000000.0, 1.0, -2.0, 12345.678]
+        1000000.0, 1.0, -2.0, 12345.678,
+        # fractions that start with zeros (".0" inside the number), small exponents, exponent texts
+        1.05, 2.003, 10.01, 0.05, 100.001, 7.0625, 1e-7, 2e-5, 3.5e-10, 1e-05, 1.0e+22]
+# strings / keys that look like pieces of numbers (a number clean-up must never reach inside a string)
+NUMBERISH = ['1e-07', 'version 2e-05', '3e-04', '1.0', 'v1.0]', '10.0e+01', '2.00', '-0.0', '1e+05', '5.0,', 'a.0e-03b']
 
 
 def json_case(v, indent):
@@ -52,10 +56,13 @@ def rand_value(rnd, d):
             return rnd.choice([True, False])
         if c < 0.5:
             return rnd.choice(NUMS)
+        if c < 0.58:
+            return rnd.choice(NUMBERISH)
         return ''.join(rnd.choice(ALPHA + NASTY) for _ in range(rnd.randint(0, 6)))
     if r < 0.72:
         return [rand_value(rnd, d - 1) for _ in range(rnd.randint(0, 4))]
-    return {''.join(rnd.choice(ALPHA + NASTY) for _ in range(rnd.randint(0, 4))): rand_value(rnd, d - 1) for _ in range(rnd.randint(0, 4))}
+    return {(rnd.choice(NUMBERISH) if rnd.random() < 0.1 else ''.join(rnd.choice(ALPHA + NASTY) for _ in range(rnd.randint(0, 4)))): rand_value(rnd, d - 1)
+            for _ in range(rnd.randint(0, 4))}
 
 
 def canaries(case):
@@ -98,6 +105,12 @@ def run(ctx, replay=None):
     for x in NUMS:
         jobs.append((x, None))
         jobs.append(([x, -x], 2))
+        jobs.append(([x, [x, None, True]], None))            # string-free containers
+        jobs.append(({'k': x}, None))
+    for t in NUMBERISH:
+        for sh in (t, [t], {t: 1.0}, {'k': [t, 2.5]}, [t, 1.05]):
+            jobs.append((sh, None))
+            jobs.append((sh, 2))
     cases = F.pmap(json_case, jobs)
     F.judge(ctx, 'Trace_Json', cases, canaries, key_fields=('v', 'indent'),
             describe=lambda c: {'text': c['shown'][:200] if c['shown'] else None, 'indent': c['indent']},
